@@ -68,13 +68,8 @@ def dense_state(psi, ops):
         psi.absorb_central_(to='last')
     t = psi.to_tensor()
     sp = ops.space()
-    if psi.nr_phys == 1:
-        legs = {k: sp for k in range(psi.N)}
-    else:
-        legs = {}
-        for k in range(psi.N):
-            legs[2 * k] = sp
-            legs[2 * k + 1] = sp.conj()
+    # each physical leg is embedded in the full local space with the signature it actually has (conj / transpose flip signatures)
+    legs = {i: (sp if t.get_legs(i).s == sp.s else sp.conj()) for i in range(t.ndim)}
     return t.to_numpy(legs=legs)
 
 
